@@ -91,7 +91,7 @@ def h_dt_data(f, N, mode, period=None, txt=None):
     return body
 
 
-def h_ct_data(f, ns, mode):
+def h_ct_data(f, ns, mode, overlap=False):
     f = T(f)
     vs = sorted(variables(f))
 
@@ -116,10 +116,19 @@ def h_ct_data(f, ns, mode):
         else:
             cut = [max(1, n // 2) for n in ns]
             for part in (0, 1):
-                args = [[v, [list(p) for p in (sigs[v][:c] if part == 0 else sigs[v][c:])]] for v, c in zip(vs, cut)]
+                # overlap: the second batch starts with (a copy of) the sample the first batch ended with - the usage the
+                # online operators explicitly allow for ("if buf[-1][0] == sample[0][0]: skip it")
+                lo = (lambda c: c - 1) if overlap else (lambda c: c)
+                args = [[v, [list(p) for p in (sigs[v][:c] if part == 0 else sigs[v][lo(c):])]] for v, c in zip(vs, cut)]
                 before = snap(args)
                 o = s.update(*args)
                 same(A, 'data@%d' % part, before, args, res)
+                for v, sg in args:
+                    got = s.get_value(v) if v in variables(f) else sg
+                    res.append(('get_value-%s@%d-len' % (v, part), A.bool(len(got) == len(sg))))
+                    if len(got) == len(sg):
+                        for i in range(len(sg)):
+                            res.append(('get_value-%s@%d.%d' % (v, part, i), A.And(A.eq(got[i][0], sg[i][0]), A.eq(got[i][1], sg[i][1]))))
         return res
     return body
 
@@ -234,6 +243,9 @@ def obligations(tier, rng):
                 continue
             out.append(ob('C11', 'ct_data', 'data/ct-%s/%s' % (mode, text(f)), f=f, ns=[2, 2] if two else [3], mode=mode,
                           max_paths=20000, wall=600))
+            if mode == 'online':
+                out.append(ob('C11', 'ct_data', 'data/ct-online-overlap/%s' % text(f), f=f, ns=[2, 2] if two else [3], mode=mode, overlap=True,
+                              max_paths=20000, wall=600))
     pairs = [(('once_t', X, 0, 1), ('historically_t', X, 0, 1)), (('prev', X), ('prev', X)), (('since', X, Y), ('once', X)),
              (('rise', X), ('add', X, Y))]
     for fa, fb in pairs:
